@@ -28,7 +28,9 @@ pub enum Event {
         removed_len: usize,
     },
     /// Seam positions handed to the formatter.
-    RemovedPos { positions: Vec<(usize, Option<usize>)> },
+    RemovedPos {
+        positions: Vec<(usize, Option<usize>)>,
+    },
     /// Final ranges deleted by the formatter (after merging).
     FormatRanges { ranges: Vec<(usize, usize)> },
     /// Markers rendered by `list` (all = false) / `list_all` (all = true).
